@@ -33,6 +33,20 @@ pub struct RichOpts {
 pub const ISSUER_KEYS: [(&str, &str); 3] = [("K1", "ES256"), ("KE1", "EdDSA"), ("S1", "HS256")];
 pub const HOLDER_KEYS: [(&str, &str); 2] = [("H1", "ES256"), ("HE1", "EdDSA")];
 
+fn select_everything(claims: &serde_json::Value) -> serde_json::Map<String, serde_json::Value> {
+    fn all(v: &serde_json::Value) -> serde_json::Value {
+        match v {
+            serde_json::Value::Object(o) => serde_json::Value::Object(o.iter().map(|(k, x)| (k.clone(), all(x))).collect()),
+            serde_json::Value::Array(a) => serde_json::Value::Array(a.iter().map(all).collect()),
+            _ => serde_json::json!(true),
+        }
+    }
+    match all(claims) {
+        serde_json::Value::Object(m) => m,
+        _ => serde_json::Map::new(),
+    }
+}
+
 pub fn run(ctx: &mut Ctx, o: &RichOpts) {
     let mut r = StdRng::seed_from_u64(o.seed);
     for _ in 0..o.n {
@@ -58,7 +72,7 @@ pub fn run(ctx: &mut Ctx, o: &RichOpts) {
                 }
                 1 => claims["exp"] = serde_json::Value::Null,
                 2 => claims["exp"] = serde_json::json!("tomorrow"),
-                3 => claims["exp"] = serde_json::json!(-5),
+                3 => claims["exp"] = serde_json::json!([-5i64, 0, 1, 59, 60, 61, 1000][r.gen_range(0..7)]),
                 _ => claims["exp"] = serde_json::json!(t + off(&mut r)),
             }
             match r.gen_range(0..4) {
@@ -85,13 +99,22 @@ pub fn run(ctx: &mut Ctx, o: &RichOpts) {
         let Some(mut holder) = holder_new(ctx, "P1", &issued, fmt).ok() else { continue };
         let arbitrary = r.gen_bool(o.arbitrary_sel);
         // (an empty selection - nothing disclosed - is a case of its own: jwt~[kb], "disclosures": [])
-        let sel = if arbitrary { rsel_arbitrary_root(&claims, &mut r) } else if r.gen_bool(0.12) { serde_json::Map::new() } else { rsel_root(&claims, &mut r) };
+        let sel = if arbitrary {
+            rsel_arbitrary_root(&claims, &mut r)
+        } else if r.gen_bool(0.12) {
+            serde_json::Map::new()
+        } else if r.gen_bool(0.15) {
+            select_everything(&claims) // nothing withheld
+        } else {
+            rsel_root(&claims, &mut r)
+        };
         let kb = match hk {
             Some((hkid, hkalg)) if o.kb_on || r.gen_bool(0.6) => KbArgs {
                 nonce: Some(rstr(&mut r, &o.tree)),
                 aud: Some(["https://verifier.example", "aud", ""][r.gen_range(0..3)].to_string()),
                 key: Some(hkid.to_string()),
-                alg: Some(hkalg.to_string()),
+                // the documented default of the KB-JWT algorithm is ES256, whatever the issuer's algorithm is
+                alg: if hkalg == "ES256" && r.gen_bool(0.4) { None } else { Some(hkalg.to_string()) },
             },
             _ => KbArgs::default(),
         };
@@ -115,13 +138,15 @@ pub fn run(ctx: &mut Ctx, o: &RichOpts) {
             // a presentation (with or without KB-JWT) given to a NEW holder in both serializations; both present again
             // without key binding: what they emit must not depend on the serialization (C10)
             let p3 = ctx.case * 10 + 3;
+            // (selecting nothing, or everything the presentation still discloses)
+            let sel3 = if r.gen_bool(0.5) { serde_json::Map::new() } else { sel.clone() };
             if let Some(mut h3) = holder_new(ctx, "P3", &pres, fmt).ok() {
-                present(ctx, "P3", &mut h3, fmt, &serde_json::Map::new(), &KbArgs::default(), p3);
+                present(ctx, "P3", &mut h3, fmt, &sel3, &KbArgs::default(), p3);
             }
             if let Some(m) = crate::msg::split(&pres, fmt) {
                 let other = crate::msg::render(&m, fmt.other(), crate::msg::JsonVariant::KbAbsent);
                 if let Some(mut h4) = holder_new(ctx, "P4", &other, fmt.other()).ok() {
-                    present(ctx, "P4", &mut h4, fmt.other(), &serde_json::Map::new(), &KbArgs::default(), p3);
+                    present(ctx, "P4", &mut h4, fmt.other(), &sel3, &KbArgs::default(), p3);
                 }
             }
         }
